@@ -660,21 +660,28 @@ def main():
         import resource
         # a runaway loop in the code under test (a deserializer that stops consuming) must end in a MemoryError inside the case, not in
         # the kernel killing this process
-        resource.setrlimit(resource.RLIMIT_AS, (6 << 30, 6 << 30))
+        resource.setrlimit(resource.RLIMIT_AS, (2 << 30, 2 << 30))
     except Exception:
         pass
 
     def on_alarm(signum, frame):
-        raise TimeoutError("case did not terminate within 30 s")
+        raise TimeoutError("case did not terminate within 20 s")
     signal.signal(signal.SIGALRM, on_alarm)
+    timeouts = {}
     for c in job["cases"]:
         try:
             fn = {"ser": world.run_ser, "de": world.run_de, "rt": world.run_rt, "mut": world.run_mut}[c["kind"]]
-            signal.alarm(30)
+            if timeouts.get(c.get("prog"), 0) >= 3:
+                # this program's generated code has already hung three times in this process: do not wait for it again
+                raise TimeoutError("not run: earlier cases of this program did not terminate")
+            signal.alarm(20)
             try:
                 res["results"].append(fn(c))
             finally:
                 signal.alarm(0)
+        except TimeoutError:
+            timeouts[c.get("prog")] = timeouts.get(c.get("prog"), 0) + 1
+            res["results"].append({"harness_error": traceback.format_exc()[-800:], "timeout": True})
         except Exception:
             res["results"].append({"harness_error": traceback.format_exc()[-800:]})
     json.dump(res, open(outp, "w"))
